@@ -72,6 +72,9 @@ def expected_time(msg):
         s = float(t.seconds)
         if s != s:
             return None
+        if s >= 0xFFFFFFFF:
+            # the index has a 32-bit seconds field whose all-ones value means "no time": a time that does not fit has none
+            return None
         return int(math.floor(s))
     except Exception:
         return None
@@ -106,3 +109,20 @@ def straddling_candidates(data, accepted):
                 res.append((i, k))
             i = data.find(b'\x2e\x31', i + 1, o + n)
     return res
+
+
+def boundary_time_messages(rng, seq0=0):
+    """CRC-valid Pose messages whose raw timestamp fields (seconds, nanoseconds) sit at the edges of the wire format:
+    non-canonical nanosecond fields (>= 10^9), the largest representable second counts, the all-ones markers."""
+    import gen
+    from fusion_engine_client.messages import PoseMessage
+    base = bytearray(PoseMessage().pack())
+    out = []
+    for k, (sec, ns) in enumerate([(0xFFFFFFFE, 0xFFFFFFFE), (0xFFFFFFFE, 999999999), (0xFFFFFFFE, 0), (0xFFFFFFFD, 1500000000),
+                                   (0, 0xFFFFFFFE), (0xFFFFFFFF, 0), (5, 0xFFFFFFFF), (0xFFFFFFFD, 3000000000), (0x7FFFFFFF, 999999999),
+                                   (0x80000000, 0), (1, 1000000000)]):
+        p = bytearray(base)
+        struct.pack_into('<II', p, 0, sec, ns)
+        out.append(gen.frame(10000, bytes(p), seq0 + k))
+    rng.shuffle(out)
+    return out
